@@ -172,6 +172,9 @@ def norm(x):
     return x
 
 
+REFLECTED_OK = set()     # reflected operand forms that have been seen to work in this process: from then on they must keep working
+
+
 def oracles(ctx):
     """direct statements of the property on the code itself (no model involved)"""
     r = ctx.rng
@@ -201,6 +204,32 @@ def oracles(ctx):
                 ctx.violation(f'geometry law `{k}` fails', {'o': o.name, 'p': p.yx, 'q': q.yx,
                               't1': [t1.position.yx, t1.orientation.name], 't2': [t2.position.yx, t2.orientation.name],
                               't3': [t3.position.yx, t3.orientation.name]})
+        # the same algebra through the other spellings python offers: reflected operands (x * pose is pose * x: `__rmul__`) and augmented
+        # assignment (t *= s, o *= o2, p += q) -- whatever the class defines for them must agree with the plain product / sum
+        import copy as _copy
+        arx = A(rand_area(r, small=True))
+
+        def same_or_raises(f, expect):
+            try:
+                return f() == expect
+            except TypeError:
+                return None          # an operand form python rejects outright
+        for label, got in (('position * pose', same_or_raises(lambda: p * t1, t1 * p)), ('area * pose', same_or_raises(lambda: arx * t1, t1 * arx)),
+                           ('orientation * pose', same_or_raises(lambda: o * t1, t1 * o))):
+            base_ok = True
+            if got is False or (got is None and label in REFLECTED_OK):
+                ctx.violation(f'reflected product `{label}` does not agree with the plain product', {'t': [t1.position.yx, t1.orientation.name], 'p': p.yx, 'o': o.name})
+            elif got is True:
+                REFLECTED_OK.add(label)
+        tt = _copy.deepcopy(t1)
+        tt *= t2
+        oo = o
+        oo *= t2.orientation
+        pp = _copy.deepcopy(p)
+        pp += q
+        if tt != t1 * t2 or oo is not o * t2.orientation or pp != p + q:
+            ctx.violation('augmented assignment (t *= s / o *= o2 / p += q) does not agree with the plain product / sum',
+                          {'t1': [t1.position.yx, t1.orientation.name], 't2': [t2.position.yx, t2.orientation.name], 'p': p.yx, 'q': q.yx})
         ar = A(rand_area(r, small=True))
         img = t1 * ar
         if {(t1 * x).yx for x in ar.positions()} != {x.yx for x in img.positions()}:
